@@ -170,3 +170,12 @@ Definition dfinal (defs : list ddef) (ops : list dop) (s : dstate) : dstate :=
 (** state after the ELF note has been processed: blob set, all registers created *)
 Definition dinit (defs : list ddef) (blob : bytes) (be : bool) : dstate :=
   {| b_isset := true; b_data := blob; big_endian := be; regs := map (fun _ => reg0) defs |}.
+
+(** The three ways of reading an attribute — kdump_get_attr by key,
+    kdump_attr_ref_get through a reference, kdump_attr_ref_get at an iterator
+    position — all run attr_revalidate before the value is copied out; likewise
+    kdump_set_attr and kdump_attr_ref_set share check_set_attr.  The access path
+    is therefore not part of the model's read and write. *)
+Inductive access := ByKey | ByRef | ByIter.
+Definition reg_get_via (a : access) := reg_get.
+Definition reg_set_via (a : access) := reg_set.
